@@ -46,6 +46,7 @@ type FuncContract struct {
 	PureIf     *Clause // the function writes nothing visible to callers when this holds at entry
 	NoSafety   bool // do not emit safety obligations (function only used as a callee contract)
 	Calls      []*CallSpec
+	AssumeLoads string // spec predicate assumed of every interface value loaded from a struct field / slice element
 	Stable     []string // slices whose backing arrays are assumed not to be written during the call
 	Split      []string // case-split expressions (each obligation proved per case)
 	Timeout    int
@@ -280,6 +281,9 @@ func (cs *ContractSet) parseFile(path, pkg string) error {
 				cs.Negative = kw == "nocall"
 				cs.Clause = cl
 				cur.Calls = append(cur.Calls, cs)
+				lastText = nil
+			case "assume_loads":
+				cur.AssumeLoads = rest
 				lastText = nil
 			case "stable":
 				cur.Stable = append(cur.Stable, rest)
